@@ -2,7 +2,7 @@
 import numpy as np
 import impl
 from gen import grid, data, unc
-from .common import arr, tolist
+from .common import arr, tolist, exceeds
 from .c02 import weights
 from .c14 import weight as lorch_weight
 
@@ -45,7 +45,7 @@ def evaluate(case):
         fails.append("transform uncertainty not zero when no input uncertainty is given")
     _, _, uc = tr.fourier_transform(x, y, xo, xmax=hi, dy_in=c * e, **kw)
     sc = float(np.abs(u).max()) + 1e-300
-    if np.abs(np.asarray(uc) - c * u).max() > 1e-12 * max(c, 1.0) * sc:
+    if exceeds(np.abs(np.asarray(uc) - c * u).max(), 1e-12 * max(c, 1.0) * sc):
         fails.append("transform uncertainty not homogeneous of degree 1 in the input uncertainties")
     _, _, ug = tr.fourier_transform(x, y, xo, xmax=hi, dy_in=e + grow, **kw)
     if (np.asarray(ug) < u - 1e-12 * sc).any():
@@ -76,13 +76,13 @@ def evaluate(case):
     yi = np.rint(y * 3).astype(np.int64)
     try:
         _, _, ui = tr.fourier_transform(x, yi, xo, xmax=hi, dy_in=e, **kw)
-        if np.asarray(ui).shape != u.shape or np.abs(np.asarray(ui, dtype=float) - u).max() > 1e-12 * sc:
+        if np.asarray(ui).shape != u.shape or exceeds(np.abs(np.asarray(ui, dtype=float) - u).max(), 1e-12 * sc):
             fails.append("transform uncertainty depends on the data: integer-typed data give a different (truncated) uncertainty")
     except Exception as ex:  # noqa: BLE001
         fails.append(f"integer-typed data with float uncertainties raise {type(ex).__name__}")
     # 2/pi scaling in the Q->r direction
     _, _, ug2 = tr.F_to_G(x, y, xo, dfq=e, **kw) if hi is None else tr.F_to_G(x, y, xo, dfq=e, xmax=hi, **kw)
-    if np.abs(np.asarray(ug2) - u * 2 / np.pi).max() > 1e-12 * sc:
+    if exceeds(np.abs(np.asarray(ug2) - u * 2 / np.pi).max(), 1e-12 * sc):
         fails.append("F_to_G uncertainty is not (2/pi) x core uncertainty")
     return fails
 
